@@ -149,6 +149,8 @@ class SimSlurm:
         scen = self.world.scen
         n = self.attempt.get(name, 0)
         self.attempt[name] = n + 1
+        if scen.get("exit_by_epoch"):
+            n = int(self.world.data.get("epoch", 0))  # the code depends on the (re)submission, not on the attempt
         codes = scen.get("exit_codes", {}).get(name, 0)
         if isinstance(codes, (list, tuple)):
             return codes[min(n, len(codes) - 1)]
